@@ -272,7 +272,7 @@ def get_Isotropic_GME(d:int, alpha:float|np.ndarray):
     assert d>=2
     tmp0 = np.clip(alpha + (1-alpha)/(d*d), 0, 1)
     tmp1 = 1 - ((np.sqrt(tmp0) + np.sqrt((1-tmp0)*(d-1)))**2)/d
-    ret = (tmp0>=(1/d)) * tmp1
+    ret = (tmp0>=(1/d)) * np.maximum(tmp1, 0) #tmp1 is -1ulp at the separable threshold
     return ret
 
 
